@@ -57,10 +57,10 @@ def code_constants():
     return c
 
 
-def _mc(ctx, tag, dev="{}", inv="TypeOK ObserverAccepts InStep", expect=False, wire=None, write=None, k=None):
+def _mc(ctx, tag, dev="{}", inv="TypeOK ObserverAccepts InStep", expect=False, wire=None, write=None, k=None, frames=3):
     sub = {"WIRELIMIT": wire if wire is not None else max(k["server_limit"], k["client_limit"]),
            "WRITELIMIT": write if write is not None else k["write_limit"],
-           "FRAMEHDR": k["frame_hdr"], "MAXEXTRA": k["max_extra"], "MAXFRAMES": 3, "DEV": dev, "INV": inv}
+           "FRAMEHDR": k["frame_hdr"], "MAXEXTRA": k["max_extra"], "MAXFRAMES": frames, "DEV": dev, "INV": inv}
     return lib.run_tlc(ctx, "WireTLS", "WireTLS_mc.cfg", sub, tag=tag, workers=2, expect_violation=True, env=JVM, timeout=600)
 
 
@@ -76,7 +76,7 @@ def run(ctx):
     pool = concurrent.futures.ThreadPoolExecutor(max_workers=6)
     go_f = pool.submit(lib.run_go, ctx, "server", "TestVerifC10(Rig|Parser)", None, 2400, None, False, "TestVerifC10Rig")
     mc = {
-        "mc_code_constants": pool.submit(_mc, ctx, "mc_code_constants", k=k),
+        "mc_code_constants": pool.submit(_mc, ctx, "mc_code_constants", k=k, frames=3 if q else 6),
         "neg_no_echo": pool.submit(_mc, ctx, "neg_no_echo", dev='{"NoEcho"}', inv="ObserverAccepts", k=k, wire=16401, write=16640),
         "neg_version_34": pool.submit(_mc, ctx, "neg_version_34", dev='{"Ver34"}', inv="ObserverAccepts", k=k, wire=16401, write=16640),
         "neg_empty_notice": pool.submit(_mc, ctx, "neg_empty_notice", dev='{"EmptyNotice"}', inv="ObserverAccepts", k=k, wire=16401, write=16640),
@@ -167,7 +167,7 @@ def run(ctx):
         "rule": "one evaluation = one rig scenario (browser signature x server name incl. random/RANDOM x encryption method x NumConn "
                 "{1,2,4}, singleplex, unordered x traffic pattern: small, multiframe up to 3x16 KiB, manystreams, target-closes, banner, "
                 "server-close via ActiveUser.CloseSession, inactivity, idle, link fault, abrupt client close, pipelined), plus the parser self-test "
-                "inputs; quick = every pattern with a third of the (browser, method, conns) cells and two patterns with all of them; distinct = "
+                "inputs; quick = two rounds of the full product (2 x 432 scenarios), thorough = 40 rounds with fresh names / sizes / seeds; distinct = "
                 "distinct scenario signatures; non-trivial = session established, application records in both directions beyond the handshake",
         "samples": g["samples"],
         "traces_validated_against_impl": conns_ok,
